@@ -196,5 +196,10 @@ fn main() {
     ctx.run_prop_with("long-chains", || arb_case_opts(14, 100, true), tier.pick(256, 4_000), 60, run_case);
     ctx.require_label_fraction("long-chains", "chain>100", 0.5);
     ctx.require_label_fraction("long-chains", "batch>102", 0.1);
+    // unshielded balances vs a model of the transparent coins the wallet was told about (c01_transparent.rs)
+    transparent::run(&ctx);
     ctx.finish();
 }
+
+#[path = "c01_transparent.rs"]
+mod transparent;
